@@ -872,3 +872,6 @@ add("C01", "generator stops consulting a dialect-overridden setting", G,
 add("C13", "star position taken from the cursor after the modifiers were parsed", P,
     "                rename=self._parse_star_op(\"RENAME\"),\n            )\n        ).update_positions(star_token)",
     "                rename=self._parse_star_op(\"RENAME\"),\n            ),\n            token=self._prev,\n        )", "C13.h")
+
+add("C13", "revert: heredoc-tag rewind keeps the advanced line", "sqlglot/tokenizer_core.py",
+    "                    self._line, self._col = line, col\n", "", "C13.i")
